@@ -2,13 +2,13 @@
 Native driver for C05 (Secure Binary 3.1).  Stateful line protocol (one answer line per request):
 
   new <hashLen> <fw> <flags> <ts> <descHex> <isNxp> <enc> <pckHex> <rights> <certHex>   -> ok | E:spsdk | E:other
-  add <cmd>                                                                             -> ok
+  add <cmd>              (constructor + add_command)                                    -> ok | E:spsdk
   export <sigHex>        (the signature bytes of this call: randomised by design)       -> ok:<fileHex> | E:other
   rom <pckHex> <rights> <enc> <rotkhHex> <fileHex>
         -> ok <hdr> | <cmd>;<cmd>;… | <coord> <pub> <msg> <sig>;… | <start>,<len> …     or  rej:<RomErr>
   kdf <keyHex> <const> <rights> <mode> <keyLen>      (model, generated constants)       -> <hex>
   romkdf <keyHex> <const> <rights> <blk> <keyBits>   (ROM side, hand-written)           -> <hex>
-  enc <cmd>                                                                             -> ok:<hex> | E:other
+  enc <cmd>              (constructor + export)                                         -> ok:<hex> | E:spsdk | E:other
   parse <hex>                                                                           -> ok <cmd> | <restHex>  or rej:<RomErr>
 
 <cmd> ::= erase a l m | load a m hex | execute a | call a | fuses a hex | ifr a hex | cmac a m hex
@@ -82,7 +82,10 @@ def stepLine (st : Option ObjState) : List String → Option ObjState × String
     | _, _, _, _, _, _, _, _, _, _ => (st, "bad-op")
   | "add" :: toks =>
     match st, parseCmdToks toks with
-    | some s, some cmd => (some (addCmd s cmd), "ok")
+    | some s, some cmd =>
+      (match newCmd cmd with
+       | .ok cmd => (some (addCmd s cmd), "ok")
+       | .error e => (some s, e.tag))
     | _, _ => (st, "bad-op")
   | ["export", sig] =>
     match st, parseHex sig with
@@ -112,7 +115,10 @@ def stepLine (st : Option ObjState) : List String → Option ObjState × String
     | _, _, _, _, _ => (st, "bad-op")
   | "enc" :: toks =>
     match parseCmdToks toks with
-    | some cmd => (st, if cmd.inRange then "ok:" ++ toHex (encCmd cmd) else PyErr.other.tag)
+    | some cmd =>
+      (match newCmd cmd with
+       | .ok cmd => (st, if cmd.inRange then "ok:" ++ toHex (encCmd cmd) else PyErr.other.tag)
+       | .error e => (st, e.tag))
     | none => (st, "bad-op")
   | ["parse", h] =>
     match parseHex h with
